@@ -88,7 +88,9 @@ def dumpViews (a : Abs) : List View :=
     ((a.kids r).filter fun c => a.tag c == tBIRT || a.tag c == tDEAT || a.tag c == tNAME).map
       (fun c => View.nodesWithTag c tDATE) ++
     (if a.tag r == tINDI && a.roots.contains r then
-      [View.indFamilies r, View.spouses r, View.parents r, View.children r] else []) ++
+      [View.indFamilies r, View.spouses r, View.parents r, View.children r,
+       View.names r, View.eventsOf r tBIRT, View.eventsOf r tBAPM, View.eventsOf r tDEAT,
+       View.eventsOf r tBURI, View.allEvents r] else []) ++
     (if a.tag r == tFAM then [View.husband r, View.wife r, View.famChildren r] else [])
 
 def runDump (fl : Flags) (s : St) : St × String :=
@@ -118,6 +120,7 @@ def takePath (toks : List String) : Option (List Nat × List String) := do
 def runOp (fl : Flags) (s : St) (toks : List String) : St × String :=
   let a := abs s
   let stepShow (op : Op) : St × String := let r := step fl s op; (r.1, showObs (abs r.1) r.2)
+  let atomicShow (ops : List Op) : St × String := let r := runAtomic fl s ops; (r.1, showObs (abs r.1) r.2)
   let root (tok : String) : Id := match tok.toNat? with
     | some i => (a.roots[i]?).getD (noNode s)
     | none => noNode s
@@ -145,6 +148,17 @@ def runOp (fl : Flags) (s : St) (toks : List String) : St × String :=
   | ["hu", f] => stepShow (.read (.husband (root f)))
   | ["wi", f] => stepShow (.read (.wife (root f)))
   | ["fc", f] => stepShow (.read (.famChildren (root f)))
+  | ["nms", i] => stepShow (.read (.names (root i)))
+  | ["aev", i] => stepShow (.read (.allEvents (root i)))
+  | ["evo", i, t] => match fromHex t with
+    | some t => stepShow (.read (.eventsOf (root i) t))
+    | none => (s, "bad-op")
+  | "dat" :: rest => match parseForest ("1" :: rest) with
+    | some ([t], []) => atomicShow (docAddTreeOps s.heap.length t)
+    | _ => (s, "bad-op")
+  | "aic" :: p :: rest => match fromHex p, parseForest rest with
+    | some p, some (ks, []) => atomicShow (addIndividualWithOps s.heap.length p ks)
+    | _, _ => (s, "bad-op")
   | ["da", t, v, p] => match fromHex t, fromHex v, fromHex p with
     | some t, some v, some p => stepShow (.docAddNode t v p)
     | _, _, _ => (s, "bad-op")
@@ -197,6 +211,12 @@ def runOp (fl : Flags) (s : St) (toks : List String) : St × String :=
       | "an", [t, v, p] => match fromHex t, fromHex v, fromHex p with
         | some t, some v, some p => stepShow (.addNode n t v p)
         | _, _, _ => (s, "bad-op")
+      | "dnt", [t] => match fromHex t with
+        | some t => stepShow (.deleteNodesWithTag n t)
+        | none => (s, "bad-op")
+      | "ant", rest => match parseForest ("1" :: rest) with
+        | some ([t], []) => atomicShow (addTreeOps n s.heap.length t)
+        | _ => (s, "bad-op")
       | "dn", [i] => match i.toNat? with
         | some i => stepShow (.deleteNode n (((a.kids n)[i]?).getD (noNode s)))
         | none => (s, "bad-op")
